@@ -379,6 +379,9 @@ def arg_shape_ok(a, top=True):
         return isinstance(a.value, int)
     if isinstance(a, ast.BinOp) and isinstance(a.op, (ast.Add, ast.Sub, ast.Mult)):
         return arg_shape_ok(a.left, False) and arg_shape_ok(a.right, False)
+    if top and isinstance(a, ast.Call) and isinstance(a.func, ast.Name) and a.func.id.startswith("h") and not a.keywords:
+        # the result of another helper call: its C++ type is the return type of the variant reached = its label
+        return all(isinstance(x, ast.Name) or (isinstance(x, ast.Constant) and isinstance(x.value, int)) for x in a.args)
     return False
 
 
@@ -508,7 +511,7 @@ class FnGen:
                       "forward_call_sites_reaching_a_variant_other_than_the_first_declared": 0,
                       "forward_calls_through_another_helper": 0, "helpers_with_two_variants": 0, "helpers_with_three_or_more_variants": 0,
                       "forward_callee_variants_by_kind": {}, "rejected_stale_forward_variant": 0, "forward_orders": {},
-                      "later_helper_calling_a_caller_above": 0, "expression_arguments": 0}
+                      "later_helper_calling_a_caller_above": 0, "expression_arguments": 0, "helper_results_as_arguments": 0}
 
     # ---- polymorphic expressions over names
     def atom(self, names, lits=True):
@@ -810,6 +813,7 @@ class FnGen:
             return None
         by_kind = {k: [g[0] for g in gl if g[1] == k] for k in ("int", "float", "bool")}
         seq = []
+        valid = []
         for f, ps, b in funcs:
             sigs = []
             for _ in range(rng.choice([2, 3, 3])):
@@ -821,6 +825,7 @@ class FnGen:
                 if (f, sg) in ck.stale_forward_variants():
                     continue
                 sigs.append(sg)
+                valid.append((f, sg))
             for sg in sigs:
                 for _ in range(rng.choice([1, 1, 2])):
                     seq.append((f, sg))
@@ -831,6 +836,16 @@ class FnGen:
         for f, sg in seq[:rng.choice([4, 5, 6, 8])]:
             args = []
             for kx in sg:
+                inner = [(g_, s2) for (g_, s2) in valid if len(s2) == 1 and g_ != f and ck.memo.get((g_, s2)) == kx]
+                if inner and rng.random() < 0.15:
+                    g_, s2 = rng.choice(inner)
+                    a_ = rng.choice(by_kind[s2[0]]) if by_kind[s2[0]] else None
+                    if a_ is not None:
+                        args.append(f"{g_}({a_})")
+                        ck.note_call(g_, s2)
+                        used_calls.append((g_, s2))
+                        self.stats["helper_results_as_arguments"] += 1
+                        continue
                 if kx in ("int", "float") and rng.random() < 0.2:
                     args.append(self.expr_arg(kx, by_kind))
                 elif by_kind[kx] and (kx == "float" or rng.random() < 0.7):
